@@ -197,6 +197,13 @@ def check_stability(ctx, case):
     if r1 is None:
         return
     kept, copy1, n_first = r1.raw3, r1[3].copy(), len(log["evals"])
+    if st == "dimwise":
+        # the publicly exposed rule asked on the LIVE instance at this stop (and again after the continuation below): a query must not freeze what a later query returns
+        with ctx.guard("B.nodal.rule", S_PW, "dimwise-live-raises"):
+            with quiet():
+                P, W = s.get_points_and_weights()
+            q = dc.quad(f, P, W)
+            ctx.check("B.nodal.rule", eq(copy1, q), S_PW, "dimwise-live-first-stop", "reported %s, sum w f(p) over get_points_and_weights() of the live instance %s" % (copy1, q))
     stored_first = {int(k): np.array(v, dtype=float).copy() for k, v in storage.items()}
     observed = {}
     for ev in log["evals"]:
@@ -209,6 +216,13 @@ def check_stability(ctx, case):
         r2 = dc.continue_adaptive(s, case["tol"], case["max"], case.get("min", 1))
     if r2 is None:
         return
+    if st == "dimwise":
+        with ctx.guard("B.nodal.rule", S_PW, "dimwise-live-raises"):
+            with quiet():
+                P, W = s.get_points_and_weights()
+            q = dc.quad(f, P, W)
+            ctx.check("B.nodal.rule", eq(r2[3], q), S_PW, "dimwise-live-after-continue",
+                      "after continuing the run: reported %s, sum w f(p) over get_points_and_weights() of the same instance (asked before at the first stop) %s" % (r2[3], q))
     ok = np.array_equal(np.asarray(kept, dtype=float), copy1)
     ctx.check("B.report.stable", ok, S_CONTINUE, st + "-live-result",
               "array returned at the first stop was %s, after continuing (%d more evaluations) the same object reads %s"
